@@ -1,6 +1,8 @@
 pub mod big;
 pub mod laws;
+pub mod more;
 pub mod result;
+pub mod robust;
 pub mod segpair;
 pub mod stage;
 pub mod splay;
@@ -201,6 +203,51 @@ pub fn spec(id: &str, tier: Tier) -> Option<Spec> {
             check: Box::new(|c, o| laws::c09(c, o, Prec::F64)),
             assumptions,
             want_c: false,
+        },
+        "C10" => Spec {
+            id: "C10",
+            rule: "robust-domain operand pairs whose coordinates are (exact families) exactly representable in f32 with 22-bit coordinates and 11-bit differences, or (inexact families) rounded to f32 and re-validated with a single-precision general-position margin; cases that do not qualify are skipped and counted. Exact families: the f32 result must equal the f64 result coordinate for coordinate (all operations). All families: the oracles of C01, C02, C04, C05 and one of C06/C07/C08/C09 are re-run with the operation executed in f32 (tolerance 1e-4*magnitude on inexact families). Non-trivial: C01-non-trivial and the result contains a computed vertex.",
+            design_ref: "§5 C10",
+            families: pair_families(tier, 16_000, 2_000_000, false, false),
+            spaces: vec![],
+            check: Box::new(more::c10),
+            assumptions,
+            want_c: false,
+        },
+        "C11" => Spec {
+            id: "C11",
+            rule: "triples (A,B,C) of exact-arithmetic operands on a common lattice (rect, oct and their affine images): every one of the 4 intermediate results A op B must be an acceptable operand (closed rings, no crossing or overlapping edges, structural validity), and all 16 (op,op') pairs x both nesting sides x third operand in {C, A, B} (96 forms) plus one depth-3 chain are judged by exact membership on the joint arrangement of A, B, C; float triples in general position with the independent third operand only (32 forms). Non-trivial: an intermediate result is non-empty and has a computed vertex or touching rings.",
+            design_ref: "§5 C11",
+            families: {
+                let q = |a: u64, b: u64| tier.pick(a, b);
+                vec![
+                    fam("rect", q(1500, 60_000), true, || strat::case(strat::rect_shape(4, 4, false), false)),
+                    fam("oct", q(1500, 60_000), true, || strat::case(strat::oct_shape(3, 3), false)),
+                    fam("aff-oct", q(300, 15_000), true, || strat::case(strat::oct_shape(3, 3), true)),
+                    fam("gen", q(500, 15_000), true, || strat::case(strat::gen_shape(), false)),
+                ]
+            },
+            spaces: vec![],
+            check: Box::new(more::c11),
+            assumptions,
+            want_c: true,
+        },
+        "C12" => Spec {
+            id: "C12",
+            rule: "call histories over a pool of operands (A, B, C of a generated case, the empty operand, a separately allocated copy of A, A's first part): 20-60 calls (operation, two pool indices, placement in {this thread, fresh thread}) derived from the case's auxiliary bits; after every call all operands are compared bit for bit with a snapshot and the result with the memoised first result for equal operands; for a fifth of the histories 8 threads then run all calls concurrently in different orders and every result is compared with the reference. Non-trivial: some call took the sweep path and returned at least one ring. Thread schedules are sampled, not controlled.",
+            design_ref: "§5 C12",
+            families: {
+                let q = |a: u64, b: u64| tier.pick(a, b);
+                vec![
+                    fam("rect", q(400, 12_000), true, || strat::case(strat::rect_shape(4, 4, false), false)),
+                    fam("oct", q(400, 12_000), true, || strat::case(strat::oct_shape(3, 3), false)),
+                    fam("gen", q(200, 6_000), true, || strat::case(strat::gen_shape(), false)),
+                ]
+            },
+            spaces: vec![],
+            check: Box::new(more::c12),
+            assumptions,
+            want_c: true,
         },
         _ => return None,
     })
